@@ -35,6 +35,38 @@ CLAIMS = {
    text="Lean 4 theorems evaluated by native_decide over a bit-exact soft-float (binary32, RNE, no FMA) model of the IDCT with the basis table regenerated from the source: for generator seed 1 and each of the six Annex A ranges (10,000 blocks each) peak error <= 1, per-position mse <= 0.06, overall mse <= 0.02, per-position mean error <= 0.015, overall mean error <= 0.0015 against an exact (40-digit) reference transform; all 4095 DC-only blocks and 20,000 random first-row / first-column blocks within 1; all-zero block -> zeros (kernel decide). The model is tied to the real idct_channel bit for bit by correspondence on the same blocks (predictions 0 and 255), and the five statistics are recomputed from the implementation's own outputs.",
    note="Axioms: propext, Classical.choice, Quot.sound and, for the nine statistical theorems, the per-call native_decide axioms (trust in the Lean compiler/runtime) - the only theorems in the framework that use native_decide. The reference transform uses 40-digit cosine constants and exact integer arithmetic in place of the procedure's double precision (difference < 1e-33). A universal (all blocks) peak-error theorem is not claimed. The u8 output plane shows residuals only within -255..255, so the implementation-side statistics clip at -255; the model-level theorems use -256..255.",
    design="DESIGN.md §4 C10", technique="Lean 4 native_decide over a soft-float model with regenerated table + bit-exact correspondence"),
+ "C01": dict(
+   text="Lean 4 model of the whole decode path in which every Rust panic site (index, slice, checked arithmetic, division, unwrap, assertion) is an explicit `panic` outcome and every data-driven loop takes fuel; theorems: the start-code search can neither panic nor run out of fuel (it consumes a bit per iteration), the quantizer update cannot overflow, candidate prediction never indexes out of bounds at any position of any picture width, dequantisation is bounded. The model is tied to the code by correspondence on valid, corrupted and random streams after random histories under all four option combinations (panic / no panic), every call under catch_unwind with overflow checks and debug assertions on.",
+   note="PARTIAL: component-level totality theorems only; the composition `decodeNextPicture never yields panic or fuel` is not yet proved, so for whole calls the claim rests on the model/code correspondence plus the direct observation that no call panics. Allocation failure, stack exhaustion, aborts and wall-clock behaviour are runtime behaviour a Lean model cannot exhibit (harness observes CRASH / TIMEOUT). Axioms: propext, Classical.choice, Quot.sound.",
+   design="DESIGN.md §4 C01", technique="Lean 4 proof (component totality) + panic-class correspondence on malformed streams"),
+ "C02": dict(
+   text="Lean 4 theorems: the regenerated TCOEF, MCBPC-I and CBPY trees decode every codeword of Tables 16, 7, 13 (incl. ESCAPE and stuffing) to the specified symbol, and are prefix codes (codewords decode identically in front of any bits); planes are allocated with exactly the signalled sizes; dequantisation = the H.263 formula (C11). The picture-level behaviour (positions, quantizer tracking, zig-zag placement, four IDCT shapes, cropping) is modelled in full (soft-float IDCT) and tied to the code bit-exactly by correspondence on intra pictures written by the specification encoder.",
+   note="PARTIAL: no picture-level round-trip theorem `decode (encode P) = reconstruct P` yet; the ideal-transform tolerance clause is delegated to C10. Axioms: propext, Classical.choice, Quot.sound.",
+   design="DESIGN.md §4 C02", technique="Lean 4 proof (regenerated VLC tables vs. specification encoder) + bit-exact picture correspondence"),
+ "C03": dict(
+   text="Lean 4 theorems: Table 8 (MCBPC-P) agreement; upward-rounding half-sample interpolation; reference coordinates outside the picture take the nearest edge sample (read_sample clamps, never out of bounds); vector wrap, chroma rounding, median and candidate rules (C12); a picture needing prediction without a reference is rejected. Gather (fast and generic paths), early-end handling and residual addition are modelled in full and tied to the code bit-exactly on generated P pictures over high-entropy references.",
+   note="PARTIAL: no picture-level theorem `decode = motion-compensated prediction + residual` yet. Axioms: propext, Classical.choice, Quot.sound.",
+   design="DESIGN.md §4 C03", technique="Lean 4 proof (sample/vector rules) + bit-exact P-picture correspondence"),
+ "C04": dict(
+   text="Lean 4 refinement theorems: with abs(state) = (get_last_picture, get_reference_picture), accepting a picture acts on abs exactly by the rule `last := new; reference := new unless disposable` for every temporal reference (incl. one equal to the reference's: disposable pictures are filed under tr|0x8000), a clean-up changes neither, a rejected picture changes nothing; every successful decode step is such an acceptance of the picture reconstructed from the current abstraction. Model tied to the code by correspondence on histories with colliding temporal references; the abstract rule is also replayed on the implementation's own output.",
+   note="Assumes temporal references below 0x8000 (parsed values have at most 10 bits; not yet a theorem about the header parser). Axioms: propext, Classical.choice, Quot.sound.",
+   design="DESIGN.md §4 C04", technique="Lean 4 refinement proof to a two-variable spec machine + history correspondence"),
+ "C05": dict(
+   text="Lean 4 theorems over the system model: a failed decode step returns the instance unchanged; later steps give the same results as if it had never been made; a retry after appending data is the call on the completed data; a decode call depends on the decoder only through options, last and reference picture; carried-over options are never changed. That the code behaves like this model (mutations after the last fallible step, reader rollback, retained bytes) is established by correspondence: failing pictures at every depth inside histories, every byte split of a picture across two deliveries, with atomicity also checked on the implementation's own output.",
+   note="In a functional model `an error carries no new state` holds by construction, so the theorems are consequences rather than the tie to the code; the tie is the correspondence (and C14 for the reader). Axioms: propext, Quot.sound.",
+   design="DESIGN.md §4 C05", technique="Lean 4 model with state returned only on success + fault-injection correspondence"),
+ "C13": dict(
+   text="Lean 4 theorems: a picture buffer is allocated with luma w*h, chroma ceil(w/2)*ceil(h/2), chroma row ceil(w/2); for every w, h >= 1 and quantizer 1..31, deblocking each plane with the regenerated table's strength and converting to RGBA is `ok` with exactly 4*w*h bytes (composition of C16.no_panic and C08.no_panic_and_length, whose preconditions are those size relations). Real pipeline decode -> deblock x3 -> rgba on every size of a dense range tied to the model.",
+   note="PARTIAL: that gather and the IDCT preserve the plane sizes (they write in place) is modelled and covered by correspondence, not yet a theorem. Axioms: propext, Classical.choice, Quot.sound.",
+   design="DESIGN.md §4 C13", technique="Lean 4 proof (composition of the post-processing totality theorems) + pipeline correspondence"),
+ "C15": dict(
+   text="Lean 4 theorems: once the picture's macroblocks are decoded the macroblock loop stops without reading a further bit, whatever follows; the position after a successful call is the loop's final cursor. Concatenated streams (2..4 pictures, all flavours, paddings 0..7) are decoded call after call by the real decoder and compared with the model and with one reader per picture.",
+   note="PARTIAL: no theorem for whole concatenated streams (needs the picture-level round trip of C02/C03). Axioms: propext, Quot.sound.",
+   design="DESIGN.md §4 C15", technique="Lean 4 proof (loop termination at the picture end) + concatenation correspondence"),
+ "C17": dict(
+   text="Lean 4 theorems: for any number of instances and any interleaving of their operations each instance ends in the state it reaches alone (induction over the schedule); the structural scan regenerated from the source shows no static mut / thread_local / interior mutability / atomics / locks / unsafe / hash-map iteration and exactly three lazy statics whose constant initialisers equal the model's masks. Replicated instances on 4-8 threads with rotated interleavings are compared with the model's single sequential answer.",
+   note="PARTIAL by nature: thread scheduling, allocator and lazy-static initialisation races are runtime behaviour the model cannot exhibit. Axioms: propext, Quot.sound.",
+   design="DESIGN.md §4 C17", technique="Lean 4 proof (interleaving independence) + regenerated structural scan + multi-thread schedule correspondence"),
 }
 
 PENDING = {}
